@@ -301,3 +301,13 @@ class PathEnd(Signal):
 
 class Unsupported(Exception):
     """Construct outside the supported subset: the function is *undecided*."""
+
+
+# ---- solver calls: z3's own timeout; a hang inside z3 is caught by the per-check wall-clock guard
+# in pyvc/check.py (worker processes are terminated), because interrupting z3 from a second
+# thread corrupted its heap in this build.
+def timed_check(solver, ms, *assumptions):
+    try:
+        return solver.check(*assumptions)
+    except z3.Z3Exception:
+        return z3.unknown
